@@ -1013,5 +1013,37 @@ fn main() {
     }
 
 
+    // 2c. IsNone for Vec<T> (isnone.rs l.800-848; C15 audit): the null is the empty vector
+    {
+        let vals: Vec<Vec<i32>> = vec![vec![], vec![0], vec![1], vec![0, 0], vec![i32::MIN, -1, i32::MAX], vec![7; 5]];
+        for v in vals {
+            let vc = v.clone();
+            let enc_vec = |x: &Vec<i32>| -> Vec<Cell> {
+                let mut c = vec![Cell::Int(x.len() as i128)];
+                c.extend(x.iter().map(|e| Cell::Int(*e as i128)));
+                c
+            };
+            let enc_ovec = |o: Option<Vec<i32>>| -> Vec<Cell> {
+                match o { Some(x) => { let mut c = vec![Cell::Int(1)]; c.extend(enc_vec(&x)); c } None => vec![Cell::Int(0)] }
+            };
+            cx.em.case(
+                "exact",
+                &format!("fn=vecnone ty=Vec<i32> len={}{}", v.len(), if v.is_empty() { " nt=0" } else { "" }),
+                &format!("is_none, not_none, to_opt, as_opt, unwrap, from_opt(to_opt), none().is_none(), from_opt(None) on {:?} : Vec<i32>", v),
+                || format!("run_vecnone {}", coq_list(&vc, |e| coq_z(*e as i128))),
+                || {
+                    let mut c = vec![Cell::Int(IsNone::is_none(&v) as i128), Cell::Int(IsNone::not_none(&v) as i128)];
+                    c.extend(enc_ovec(IsNone::to_opt(v.clone())));
+                    c.extend(enc_ovec(IsNone::as_opt(&v).cloned()));
+                    c.extend(res_cells(guarded(AssertUnwindSafe(|| IsNone::unwrap(v.clone()))), |x| enc_vec(&x)));
+                    c.extend(enc_vec(&<Vec<i32> as IsNone>::from_opt(IsNone::to_opt(v.clone()))));
+                    c.push(Cell::Int(IsNone::is_none(&<Vec<i32> as IsNone>::none()) as i128));
+                    c.extend(enc_vec(&<Vec<i32> as IsNone>::from_opt(None)));
+                    c
+                },
+            );
+        }
+    }
+
     cx.em.finish();
 }
